@@ -264,6 +264,6 @@ pub fn run(args: &Args) -> i32 {
     let t = check.tier;
     let tolerated = crate::run::tolerated_keys(&check, args, &["mislabelled-signature-stored*", "mislabelled-signature-stored", "mislabelled-signature-stored:two-names", "panic-on-submission:name-not-registered*"]);
     check.enumerate("label-signature-product", product().into_iter(), true, |c| run_case(c, &tolerated, false));
-    check.section("rounds", case_strategy, t.pick(240, 10000), |c| run_case(c, &tolerated, true));
+    check.section("rounds", case_strategy, t.pick(400, 12000), |c| run_case(c, &tolerated, true));
     check.finish()
 }
